@@ -74,7 +74,7 @@ pub fn deref_h() {
             sarms.append("(%s, %s) => %s," % (P.pat(v, "x"), P.pat(v, "y"), conj(["*x%d == *y%d" % (f.idx, f.idx) for f in v.fields])))
         u.kani_oracle.append("pub fn deref_mut_addr(x: &TI) -> *const %s {\n    match x {\n        %s\n    }\n}\n" % (tgt, "\n        ".join(marms)))
         u.kani_oracle.append("/// x with the DerefMut-designated field replaced by v, everything else unchanged\npub fn with_target(x: &TI, v: %s) -> TI {\n    match x {\n        %s\n    }\n}\n" % (tgt, "\n        ".join(earms)))
-        u.kani_oracle.append("pub fn same(x: &TI, y: &TI) -> bool {\n    match (x, y) {\n        %s\n        _ => false,\n    }\n}\n" % "\n        ".join(sarms))
+        u.kani_oracle.append("pub fn same_d(x: &TI, y: &TI) -> bool {\n    match (x, y) {\n        %s\n        _ => false,\n    }\n}\n" % "\n        ".join(sarms))
         u.kani_harness.append("""
 #[kani::proof]
 pub fn deref_mut_h() {
@@ -85,11 +85,11 @@ pub fn deref_mut_h() {
     let p: *const %s = &mut *x;
     assert!(p == q, "contract: &mut *x has the address of the DerefMut-designated field");
     *x = v;
-    assert!(oracle::same(&x, &want), "contract: writing through &mut *x changes that field and nothing else");
+    assert!(oracle::same_d(&x, &want), "contract: writing through &mut *x changes that field and nothing else");
     kani::cover!(true);
 }
 """ % (tgt, tgt, tgt))
         u.kani_obls["deref_mut_h"] = ("%s/%s/DerefMut::deref_mut/contract" % (prop, P.pid), "&mut *x is the designated field; *x = v changes only it")
         u.replay.append('{ let mut x = oracle::mk(s); let v: %s = <%s as Val>::draw(s); let want = oracle::with_target(&x, v); let q = oracle::deref_mut_addr(&x);\n'
                         '      let p: *const %s = &mut *x; chk(out, "&mut *x is the designated field", p == q, true); *x = v;\n'
-                        '      chk(out, "*x = v changes only that field", oracle::same(&x, &want), true); }' % (tgt, tgt, tgt))
+                        '      chk(out, "*x = v changes only that field", oracle::same_d(&x, &want), true); }' % (tgt, tgt, tgt))
